@@ -17,7 +17,6 @@ structure Prog (s0 : State) (P : List ObjId) (s : State) : Prop where
   ctx : ctx s = ctx s0
   spSome : s.sp.isSome = s0.sp.isSome
   nextOid : s0.nextOid ≤ s.nextOid
-  d1 : s.d1 = s0.d1
   oidKeep : ∀ i k, (s0.objs i).oid = some k → (s.objs i).oid = some k
   objVal : ∀ i, (s0.objs i).status ≠ .ghost → (s.objs i).val = (s0.objs i).val ∧
     (s.objs i).refs = (s0.objs i).refs ∧ (s.objs i).serial = (s0.objs i).serial
@@ -29,34 +28,24 @@ structure Prog (s0 : State) (P : List ObjId) (s : State) : Prop where
   addedTracked : ∀ k i, s0.added.get k = some i →
     s.added.get k = some i ∨ (s.creating.has k = true ∧ s.cache.get k = some i)
   cacheGrow : ∀ k i, s0.cache.get k = some i → s.cache.get k = some i
-  creatingNew : ∀ k, s.creating.has k = true → s0.creating.has k = true ∨
-    ∃ i, (s.objs i).oid = some k ∧ ((s0.objs i).oid = none ∨ s0.added.get k = some i ∨
-      (s0.cache.get k = some i ∧ ((s0.objs i).serial = 0 ∨ (s0.objs i).status = .ghost)))
+  creatingNew : ∀ k, s.creating.has k = true → s0.creating.has k = true ∨ s0.nextOid ≤ k ∨
+    (∃ i, s0.added.get k = some i) ∨
+    (∃ i, s0.cache.get k = some i ∧ (s0.objs i).serial = 0 ∧ (s0.objs i).status ≠ .ghost)
   tmpCr : tmpCr s = tmpCr s0
   fresh0 : ∀ j, (s0.objs j).oid = none → s.objs j = s0.objs j ∨
     ((∃ k, s.objs j = { s0.objs j with oid := some k, jar := true }) ∧ j ∈ P) ∨
     (∃ k, (s.objs j).oid = some k ∧ s.creating.has k = true ∧ s.cache.get k = some j)
   addedSame : ∀ k j, s.added.get k = some j → s.objs j = s0.objs j
   statusKept : ∀ j, (s.objs j).status = (s0.objs j).status ∨ ∃ k, (s.objs j).oid = some k ∧ marked s k
+  pendFresh : ∀ j ∈ P, (s0.objs j).oid = none → ∀ k, (s.objs j).oid = some k →
+    s.cache.get k = none ∧ s.added.get k = none
 
 theorem Prog.refl {s : State} (h : Str [] s) : Prog s [] s := by
-  refine ⟨h, h, rfl, rfl, Nat.le_refl _, rfl, fun _ _ h => h, fun _ _ => ⟨rfl, rfl, rfl⟩, fun _ h => h,
+  refine ⟨h, h, rfl, rfl, Nat.le_refl _, fun _ _ h => h, fun _ _ => ⟨rfl, rfl, rfl⟩, fun _ h => h,
     fun _ h => h, ?_, fun _ _ h => h, fun _ _ h => Or.inl h, fun _ _ h => h, fun _ h => Or.inl h, rfl,
-    fun _ _ => Or.inl rfl, fun _ _ _ => rfl, fun _ => Or.inl rfl⟩
-  intro i k h1 h2; rw [h1] at h2; cases h2
-
-theorem Prog.mono {s0 P Q s} (h : Prog s0 P s) (hPQ : ∀ i ∈ P, i ∈ Q) : Prog s0 Q s :=
-  { h with
-    str := h.str.mono hPQ
-    newTracked := fun i k h1 h2 => by
-      obtain ⟨h3, h4⟩ := h.newTracked i k h1 h2
-      exact ⟨h3, h4.elim (fun h5 => Or.inl (hPQ i h5)) Or.inr⟩
-    fresh0 := fun j hj => by
-      rcases h.fresh0 j hj with h1 | h1 | h1
-      · exact Or.inl h1
-      · exact Or.inr (Or.inl ⟨h1.1, hPQ j h1.2⟩)
-      · exact Or.inr (Or.inr h1) }
-
+    fun _ _ => Or.inl rfl, fun _ _ _ => rfl, fun _ => Or.inl rfl, ?_⟩
+  · intro i k h1 h2; rw [h1] at h2; cases h2
+  · intro j hj; cases hj
 
 theorem classify_added (s : State) (i k k') :
     (classify s i k).added.get k' = if isNewObj s (s.objs i) k = true ∧ k' = k then none else s.added.get k' := by
@@ -75,9 +64,9 @@ theorem classify_creating (s : State) (i k k') :
     split <;> simp
   · rename_i h; simp [h]
 
-/-- field-by-field description of one successful iteration of `_store_objects` for the object `i`
-    (oid `k`): `s3` is the state after it, `pushed` what the pickler put on the stack -/
-structure StoreSpec (s : State) (i k : Nat) (rest : List Nat) (s3 : State) (pushed : List Nat) : Prop where
+/-- field-by-field description of one iteration of `_store_objects` for the object `i` (oid `k`),
+    successful or not: `s3` is the state after it, `pushed` what the pickler put on the stack -/
+structure StepSpec (s : State) (i k : Nat) (rest : List Nat) (s3 : State) (pushed : List Nat) : Prop where
   str : Str (pushed.reverse ++ rest) s3
   nodup : pushed.Nodup
   obj : ∀ j, (s3.objs j = s.objs j) ∨
@@ -99,7 +88,9 @@ structure StoreSpec (s : State) (i k : Nat) (rest : List Nat) (s3 : State) (push
   ctx : ctx s3 = ctx s
   spSome : s3.sp.isSome = s.sp.isSome
   tmpCr : tmpCr s3 = tmpCr s
-  d1 : s3.d1 = s.d1
+
+/-- what a successful iteration guarantees in addition -/
+structure StoredSpec (s : State) (i k : Nat) (s3 : State) : Prop where
   refsOid : ∀ x ∈ (s3.objs i).refs, (s3.objs x).oid ≠ none
   notGhost : (s3.objs i).status ≠ .ghost
   stagedNone : s.sp = none → s3.sp = none ∧ s3.nstores = s.nstores + 1 ∧
@@ -108,7 +99,7 @@ structure StoreSpec (s : State) (i k : Nat) (rest : List Nat) (s3 : State) (push
     s3.sp = some (t.store k ⟨(s3.objs i).serial, (s3.objs i).val, (s3.objs i).refs⟩) ∧
     s3.staged = s.staged ∧ (s3.objs i).status = .uptodate
 
-theorem StoreSpec.marked_mono {s i k rest s3 pushed} (sp : StoreSpec s i k rest s3 pushed) (k' : Nat)
+theorem StepSpec.marked_mono {s i k rest s3 pushed} (sp : StepSpec s i k rest s3 pushed) (k' : Nat)
     (h : marked s k') : marked s3 k' := by
   unfold marked at h ⊢
   rw [sp.modified, sp.creating]
@@ -120,7 +111,7 @@ theorem StoreSpec.marked_mono {s i k rest s3 pushed} (sp : StoreSpec s i k rest 
     · rfl
     · exact h
 
-theorem StoreSpec.marked_self {s i k rest s3 pushed} (sp : StoreSpec s i k rest s3 pushed) :
+theorem StepSpec.marked_self {s i k rest s3 pushed} (sp : StepSpec s i k rest s3 pushed) :
     marked s3 k := by
   unfold marked
   rw [sp.modified, sp.creating]
@@ -128,877 +119,5 @@ theorem StoreSpec.marked_self {s i k rest s3 pushed} (sp : StoreSpec s i k rest 
   · right; simp [h]
   · left; simp [h]
 
-theorem storeOne_spec {s : State} {i k : Nat} {rest : List Nat}
-    (hS : Str (i :: rest) s) (hk : (s.objs i).oid = some k)
-    (hnew : s.added.get k ≠ none → isNewObj s (s.objs i) k = true)
-    (hok : (storeOne s i).1.2 = none) :
-    StoreSpec s i k rest (storeOne s i).1.1 (storeOne s i).2 := by
-  unfold storeOne at hok ⊢
-  simp only [hk] at hok ⊢
-  have hobj1 := access_objs (classify s i k) i
-  have hbooks1 := access_books (classify s i k) i
-  have hstores1 := access_stores (classify s i k) i
-  have hctx1 := access_ctx (classify s i k) i
-  have hnext1 := access_nextOid (classify s i k) i
-  have htc1 := access_tmpCr (classify s i k) i
-  have hstr1 := access_str (classify_str hS i k (List.mem_cons_self) hk) i
-  have hng1 := access_ok_nonghost (classify s i k) i
-  generalize access (classify s i k) i = a at *
-  obtain ⟨a1, a2⟩ := a
-  cases a2 with
-  | some e => simp at hok
-  | none =>
-    simp only at hok ⊢ hobj1 hbooks1 hstores1 hctx1 hnext1 hstr1 htc1 hng1
-    have hng1 := hng1 trivial
-    rw [classify_tmpCr] at htc1
-    simp only [classify_objs] at hobj1
-    rw [classify_nextOid] at hnext1
-    -- the pickler
-    have ser := serialize_ok a1 (a1.objs i).refs
-    have hrefs := serialize_refs_oid a1 (a1.objs i).refs
-    have hstr2 := serialize_str hstr1 (a1.objs i).refs
-    have hbooks2 := serialize_books a1 (a1.objs i).refs
-    have hstores2 := serialize_stores a1 (a1.objs i).refs
-    have hctx2 := serialize_ctx a1 (a1.objs i).refs
-    have htc2 := serialize_tmpCr a1 (a1.objs i).refs
-    generalize serialize a1 (a1.objs i).refs = sr at *
-    obtain ⟨s2, pushed⟩ := sr
-    simp only at hok ⊢ ser hstr2 hbooks2 hstores2 hctx2 htc2 hrefs
-    -- the store
-    have hnone3 := storeRec_none s2 i k ⟨(a1.objs i).serial, (a1.objs i).val, (a1.objs i).refs⟩
-    have htmp3 := storeRec_tmp s2 i k ⟨(a1.objs i).serial, (a1.objs i).val, (a1.objs i).refs⟩
-    have hobj3 := storeRec_objs s2 i k ⟨(a1.objs i).serial, (a1.objs i).val, (a1.objs i).refs⟩
-    have hcache3 := storeRec_cache s2 i k ⟨(a1.objs i).serial, (a1.objs i).val, (a1.objs i).refs⟩ hok
-    have hbooks3 := storeRec_books s2 i k ⟨(a1.objs i).serial, (a1.objs i).val, (a1.objs i).refs⟩
-    have hctx3 := storeRec_ctx s2 i k ⟨(a1.objs i).serial, (a1.objs i).val, (a1.objs i).refs⟩
-    have hnext3 := storeRec_nextOid s2 i k ⟨(a1.objs i).serial, (a1.objs i).val, (a1.objs i).refs⟩
-    have hsp3 := storeRec_spSome s2 i k ⟨(a1.objs i).serial, (a1.objs i).val, (a1.objs i).refs⟩
-    have htc3 := storeRec_tmpCr s2 i k ⟨(a1.objs i).serial, (a1.objs i).val, (a1.objs i).refs⟩
-    have hadd2 : s2.added.get k = none := by
-      simp only [books, Prod.mk.injEq] at hbooks1 hbooks2
-      rw [hbooks2.1, hbooks1.1, classify_added]
-      split
-      · rfl
-      · rename_i hn
-        cases hc : s.added.get k with
-        | none => rfl
-        | some j => exact absurd ⟨hnew (by rw [hc]; simp), rfl⟩ hn
-    have hoid1 : (a1.objs i).oid = some k := by
-      rcases hobj1 i with h | h
-      · rw [h]; exact hk
-      · rw [h.2.2.2.1]; exact hk
-    have hoid2 : (s2.objs i).oid = some k := by
-      rw [ser.keep i (by rw [hoid1]; simp)]; exact hoid1
-    have hstr3 := storeRec_str (Q := pushed.reverse ++ rest) hstr2 i k
-      ⟨(a1.objs i).serial, (a1.objs i).val, (a1.objs i).refs⟩ hoid2 hadd2 (by
-        intro j hj
-        simp only [List.mem_append, List.mem_cons, List.mem_reverse] at hj ⊢
-        rcases hj with (hj | hj) | hj
-        · exact Or.inl hj
-        · exact Or.inr (Or.inr hj)
-        · exact Or.inr (Or.inl hj)) hok
-    generalize storeRec s2 i k ⟨(a1.objs i).serial, (a1.objs i).val, (a1.objs i).refs⟩ = r at *
-    obtain ⟨s3, e3⟩ := r
-    simp only at hok hobj3 hcache3 hbooks3 hctx3 hnext3 hsp3 hstr3 htc3 hnone3 htmp3 ⊢
-    simp only [books, stores, Prod.mk.injEq, classify_cache, classify_sp, classify_staged, classify_d1] at hbooks1 hbooks2 hbooks3 hstores1 hstores2
-    have hfr := ser.frame
-    simp only at hfr
-    -- each object: what happened between `s` and `s3`
-    have hobj : ∀ j, (s3.objs j = s.objs j) ∨
-        (j = i ∧ (s3.objs j).oid = (s.objs j).oid ∧ (s3.objs j).jar = (s.objs j).jar ∧
-          (s3.objs j).status = .uptodate ∧
-          ((s.objs j).status ≠ .ghost → (s3.objs j).val = (s.objs j).val ∧
-            (s3.objs j).refs = (s.objs j).refs ∧ (s3.objs j).serial = (s.objs j).serial)) ∨
-        (j ≠ i ∧ j ∈ pushed ∧ (s.objs j).oid = none ∧
-          s3.objs j = { s.objs j with oid := (s3.objs j).oid, jar := true } ∧
-          ∃ k', (s3.objs j).oid = some k' ∧ s.nextOid ≤ k' ∧ k' < s3.nextOid) := by
-      intro j
-      by_cases hji : j = i
-      · subst hji
-        have h2 : s2.objs j = a1.objs j := ser.keep j (by rw [hoid1]; simp)
-        rcases hobj3 j with h3 | h3
-        · rcases hobj1 j with h1 | h1
-          · left; rw [h3, h2, h1]
-          · right; left
-            rw [h3, h2]
-            refine ⟨rfl, h1.2.2.2.1, h1.2.2.2.2, h1.2.2.1, fun hg => absurd h1.2.1 hg⟩
-        · right; left
-          rw [h3.2.1, h2]
-          rcases hobj1 j with h1 | h1
-          · rw [h1]; simp
-          · refine ⟨rfl, h1.2.2.2.1, h1.2.2.2.2, rfl, fun hg => absurd h1.2.1 hg⟩
-      · have h3 : s3.objs j = s2.objs j := by
-          rcases hobj3 j with h3 | h3
-          · exact h3
-          · exact absurd h3.1 hji
-        have h1 : a1.objs j = s.objs j := by
-          rcases hobj1 j with h1 | h1
-          · exact h1
-          · exact absurd h1.1 hji
-        by_cases hp : j ∈ pushed
-        · right; right
-          obtain ⟨hn, k', hk', hge, hlt⟩ := ser.pushedNew j hp
-          simp only at hk' hlt
-          rw [h1] at hn
-          refine ⟨hji, hp, hn, ?_, k', by rw [h3]; exact hk', by omega, by rw [hnext3]; exact hlt⟩
-          rw [h3, ser.pushedObj j hp, h1]
-        · left
-          rw [h3]
-          by_cases hn : (a1.objs j).oid = none
-          · rw [ser.other j hn hp, h1]
-          · rw [ser.keep j hn, h1]
-    have hnext : s.nextOid ≤ s3.nextOid := by have := ser.mono; simp only at this; omega
-    have hcache : ∀ k', s3.cache.get k' = if k' = k then some i else s.cache.get k' := by
-      intro k'; rw [hcache3, hstores2.1, hstores1.1, Map.get_set]
-    have hadded : ∀ k', s3.added.get k' =
-        if isNewObj s (s.objs i) k = true ∧ k' = k then none else s.added.get k' := by
-      intro k'; rw [hbooks3.1, hbooks2.1, hbooks1.1, classify_added]
-    have hcreating : ∀ k', s3.creating.has k' =
-        if isNewObj s (s.objs i) k = true ∧ k' = k then true else s.creating.has k' := by
-      intro k'; rw [hbooks3.2.1, hbooks2.2.1, hbooks1.2.1, classify_creating]
-    have hi2 : s2.objs i = a1.objs i := ser.keep i (by rw [hoid1]; simp)
-    have hi3 : (s3.objs i).serial = (a1.objs i).serial ∧ (s3.objs i).val = (a1.objs i).val ∧
-        (s3.objs i).refs = (a1.objs i).refs ∧ (s3.objs i).status ≠ .ghost := by
-      rcases hobj3 i with h | h
-      · rw [h, hi2]; exact ⟨rfl, rfl, rfl, hng1⟩
-      · rw [h.2.1, hi2]; simp
-    have hoid3 : ∀ x, (s2.objs x).oid ≠ none → (s3.objs x).oid ≠ none := by
-      intro x hx
-      rcases hobj3 x with h | h
-      · rw [h]; exact hx
-      · rw [h.2.1]; rw [h.1] at hx; exact hx
-    constructor
-    · exact hstr3
-    · exact ser.nodup
-    · exact hobj
-    · intro j hj
-      obtain ⟨hn, k', hk', _⟩ := ser.pushedNew j hj
-      simp only at hk'
-      have hji : j ≠ i := by intro he; subst he; rw [hoid1] at hn; cases hn
-      refine ⟨hji, ?_, hoid3 j (by rw [hk']; simp)⟩
-      rcases hobj1 j with h | h
-      · rw [← h]; exact hn
-      · exact absurd h.1 hji
-    · exact hcache
-    · exact hadded
-    · exact hcreating
-    · rw [hbooks3.2.2.1, hbooks2.2.2.1, hbooks1.2.2.1, classify_modified]
-    · exact hnext
-    · rw [hctx3, hctx2, hctx1, classify_ctx]
-    · rw [hsp3, hstores2.2.1, hstores1.2.1]
-    · rw [htc3, htc2, htc1]
-    · rw [hbooks3.2.2.2, hbooks2.2.2.2, hbooks1.2.2.2]
-    · intro x hx
-      rw [hi3.2.2.1] at hx
-      exact hoid3 x (hrefs x hx)
-    · exact hi3.2.2.2
-    · intro hsp
-      have hsp2 : s2.sp = none := by rw [hstores2.2.1, hstores1.2.1]; exact hsp
-      obtain ⟨h1, h2, h3⟩ := hnone3 hsp2 hok
-      refine ⟨h1, by rw [h2, hstores2.2.2.2, hstores1.2.2.2]; unfold classify; split <;> rfl, ?_⟩
-      rw [h3, hstores2.2.2.1, hstores1.2.2.1, hi3.1, hi3.2.1, hi3.2.2.1]
-    · intro t hsp
-      have hsp2 : s2.sp = some t := by rw [hstores2.2.1, hstores1.2.1]; exact hsp
-      obtain ⟨h1, h2, h3⟩ := htmp3 t hsp2
-      refine ⟨by rw [h1, hi3.1, hi3.2.1, hi3.2.2.1], by rw [h2, hstores2.2.2.1, hstores1.2.2.1], h3⟩
-
-
-/-- what one successful iteration of `_store_objects` guarantees -/
-structure StepOK (s0 s : State) (i : ObjId) (rest : List ObjId) (s3 : State) (pushed : List ObjId) : Prop where
-  prog : Prog s0 (pushed.reverse ++ rest) s3
-  pushedFresh : ∀ j ∈ pushed, (s.objs j).oid = none ∧ (s0.objs j).oid = none ∧
-    ∃ k', s3.objs j = { s0.objs j with oid := some k', jar := true } ∧ s0.nextOid ≤ k'
-
-/-- one successful iteration of `_store_objects` -/
-theorem storeOne_prog {s0 s : State} {i k : Nat} {rest : List Nat} {s3 : State} {pushed : List Nat}
-    (hP : Prog s0 (i :: rest) s) (hk : (s.objs i).oid = some k)
-    (hnew : s.added.get k ≠ none → isNewObj s (s.objs i) k = true)
-    (hknown : s.cache.get k = some i ∨ s.added.get k = some i ∨ (s0.objs i).oid = none)
-    (hnew0 : (s0.objs i).oid = none → isNewObj s (s.objs i) k = true)
-    (sp : StoreSpec s i k rest s3 pushed) :
-    StepOK s0 s i rest s3 pushed := by
-  have hobj := sp.obj
-  have hcache := sp.cache
-  have hadded := sp.added
-  have hcreating := sp.creating
-  have hnext := sp.nextOid
-  have hisnew : s.added.get k = some i → isNewObj s (s.objs i) k = true :=
-    fun h => hnew (by rw [h]; simp)
-  refine ⟨?_, ?_⟩
-  rotate_left
-  · -- pushedFresh
-    intro j hj
-    obtain ⟨hji, hsn, hsome⟩ := sp.pushedNew j hj
-    have h0n : (s0.objs j).oid = none := by
-      cases h0 : (s0.objs j).oid with
-      | none => rfl
-      | some k0 => have := hP.oidKeep j k0 h0; rw [hsn] at this; cases this
-    refine ⟨hsn, h0n, ?_⟩
-    have hs0 : s.objs j = s0.objs j := by
-      rcases hP.fresh0 j h0n with h | h | h
-      · exact h
-      · obtain ⟨⟨k2, hk2⟩, _⟩ := h; rw [hk2] at hsn; cases hsn
-      · obtain ⟨k2, hk2, _⟩ := h; rw [hk2] at hsn; cases hsn
-    rcases hobj j with h | h | h
-    · rw [h, hsn] at hsome; exact absurd rfl hsome
-    · exact absurd h.1 hji
-    · obtain ⟨k2, hk2, hge, _⟩ := h.2.2.2.2
-      refine ⟨k2, ?_, by have := hP.nextOid; omega⟩
-      rw [h.2.2.2.1, hk2, hs0]
-  constructor
-  · exact hP.base
-  · exact sp.str
-  · rw [sp.ctx]; exact hP.ctx
-  · rw [sp.spSome]; exact hP.spSome
-  · have := hP.nextOid; omega
-  · rw [sp.d1]; exact hP.d1
-  · intro j k' hj
-    have := hP.oidKeep j k' hj
-    rcases hobj j with h | h | h
-    · rw [h]; exact this
-    · rw [h.2.1]; exact this
-    · rw [h.2.2.1] at this; cases this
-  · intro j hg
-    have h0 := hP.objVal j hg
-    rcases hobj j with h | h | h
-    · rw [h]; exact h0
-    · by_cases hsg : (s.objs j).status = .ghost
-      · exact absurd (hP.noGhost j hsg) hg
-      · have := h.2.2.2.2 hsg; rw [this.1, this.2.1, this.2.2]; exact h0
-    · rw [h.2.2.2.1]; exact h0
-  · intro j hc
-    apply hP.noChange
-    rcases hobj j with h | h | h
-    · rw [← h]; exact hc
-    · rw [h.2.2.2.1] at hc; cases hc
-    · rw [h.2.2.2.1] at hc; exact hc
-  · intro j hc
-    apply hP.noGhost
-    rcases hobj j with h | h | h
-    · rw [← h]; exact hc
-    · rw [h.2.2.2.1] at hc; cases hc
-    · rw [h.2.2.2.1] at hc; exact hc
-  · -- newTracked
-    intro j k' h0 hj
-    have hstr := hP.str
-    have hoidj : (s.objs j).oid = some k' ∨ (j ≠ i ∧ j ∈ pushed ∧ s.nextOid ≤ k') := by
-      rcases hobj j with h | h | h
-      · left; rw [← h]; exact hj
-      · left; rw [← h.2.1]; exact hj
-      · right; obtain ⟨k2, hk2, hge, _⟩ := h.2.2.2.2
-        rw [hk2] at hj; cases hj; exact ⟨h.1, h.2.1, hge⟩
-    rcases hoidj with hoidj | hoidj
-    · obtain ⟨hge, htr⟩ := hP.newTracked j k' h0 hoidj
-      refine ⟨hge, ?_⟩
-      by_cases hji : j = i
-      · subst hji
-        rw [hk] at hoidj; cases hoidj
-        right
-        rw [hcreating, hcache]
-        simp [hnew0 h0]
-      · rcases htr with htr | htr
-        · left
-          simp only [List.mem_cons] at htr
-          simp only [List.mem_append, List.mem_reverse]
-          rcases htr with htr | htr
-          · exact absurd htr hji
-          · exact Or.inr htr
-        · right
-          rw [hcreating, hcache]
-          have hne : k' ≠ k := by
-            intro he; subst he
-            exact hji (hstr.inj j i k' hoidj hk)
-          simp [hne, htr.1, htr.2]
-    · refine ⟨by have := hP.nextOid; omega, Or.inl ?_⟩
-      simp only [List.mem_append, List.mem_reverse]
-      exact Or.inl hoidj.2.1
-  · -- addedSub
-    intro k' j hj
-    rw [hadded] at hj
-    split at hj
-    · cases hj
-    · exact hP.addedSub k' j hj
-  · -- addedTracked
-    intro k' j hj
-    have hstr := hP.str
-    rcases hP.addedTracked k' j hj with h | h
-    · by_cases hkk : k' = k
-      · subst hkk
-        have hji : j = i := hstr.inj j i k' (hstr.addedS k' j h).1 hk
-        subst hji
-        right
-        rw [hcreating, hcache]
-        simp [hisnew h]
-      · left; rw [hadded]; simp [hkk, h]
-    · right
-      rw [hcreating, hcache]
-      by_cases hkk : k' = k
-      · subst hkk
-        have hji : j = i := hstr.inj j i k' (hstr.cacheS k' j h.2) hk
-        subst hji
-        simp [h.1]
-      · simp [hkk, h.1, h.2]
-  · -- cacheGrow
-    intro k' j hj
-    have hstr := hP.str
-    have h := hP.cacheGrow k' j hj
-    rw [hcache]
-    by_cases hkk : k' = k
-    · subst hkk
-      have hji : j = i := hstr.inj j i k' (hstr.cacheS k' j h) hk
-      simp [hji]
-    · simp [hkk, h]
-  · -- creatingNew
-    intro k' hc
-    rw [hcreating] at hc
-    have hkeep : ∀ j k2, (s.objs j).oid = some k2 → (s3.objs j).oid = some k2 := by
-      intro j k2 hj
-      rcases hobj j with h | h | h
-      · rw [h]; exact hj
-      · rw [h.2.1]; exact hj
-      · rw [h.2.2.1] at hj; cases hj
-    by_cases hcond : isNewObj s (s.objs i) k = true ∧ k' = k
-    · obtain ⟨hisn, hkk⟩ := hcond
-      subst hkk
-      right
-      refine ⟨i, hkeep i k' hk, ?_⟩
-      rcases hknown with h | h | h
-      · by_cases h0 : (s0.objs i).oid = none
-        · exact Or.inl h0
-        · right
-          obtain ⟨k0, hk0⟩ := Option.ne_none_iff_exists'.1 h0
-          have hkk : k0 = k' := by
-            have := hP.oidKeep i k0 hk0; rw [hk] at this; cases this; rfl
-          subst hkk
-          have hser : (s.objs i).serial = 0 := by
-            unfold isNewObj at hisn
-            simp only [Bool.and_eq_true, beq_iff_eq] at hisn
-            exact hisn.1
-          have hser0 : (s0.objs i).serial = 0 ∨ (s0.objs i).status = .ghost := by
-            by_cases hg : (s0.objs i).status = .ghost
-            · exact Or.inr hg
-            · left; rw [← (hP.objVal i hg).2.2]; exact hser
-          have hkn := hP.base.known i k0 hk0
-          simp only [List.not_mem_nil, or_false] at hkn
-          rcases hkn with hkn | hkn
-          · exact Or.inr ⟨hkn, hser0⟩
-          · exact Or.inl hkn
-      · exact Or.inr (Or.inl (hP.addedSub k' i h))
-      · exact Or.inl h
-    · rw [if_neg hcond] at hc
-      rcases hP.creatingNew k' hc with h | ⟨j, hj, h⟩
-      · exact Or.inl h
-      · exact Or.inr ⟨j, hkeep j k' hj, h⟩
-  · -- tmpCr
-    rw [sp.tmpCr]; exact hP.tmpCr
-  · -- fresh0
-    intro j h0
-    have hstr := hP.str
-    rcases hP.fresh0 j h0 with h | h | h
-    · have hnone : (s.objs j).oid = none := by rw [h]; exact h0
-      rcases hobj j with h' | h' | h'
-      · left; rw [h', h]
-      · rw [h'.1, hk] at hnone; cases hnone
-      · right; left
-        refine ⟨?_, ?_⟩
-        · obtain ⟨k2, hk2, _⟩ := h'.2.2.2.2
-          refine ⟨k2, ?_⟩
-          rw [h'.2.2.2.1, hk2, h]
-        · simp only [List.mem_append, List.mem_reverse]; exact Or.inl h'.2.1
-    · obtain ⟨⟨k2, hk2⟩, hmem⟩ := h
-      have hoidj : (s.objs j).oid = some k2 := by rw [hk2]
-      by_cases hji : j = i
-      · subst hji
-        rw [hk] at hoidj; cases hoidj
-        right; right
-        refine ⟨k, ?_, ?_, ?_⟩
-        · rcases hobj j with h' | h' | h'
-          · rw [h']; exact hk
-          · rw [h'.2.1]; exact hk
-          · exact absurd rfl h'.1
-        · rw [hcreating]; simp [hnew0 h0]
-        · rw [hcache]; simp
-      · right; left
-        have hsame : s3.objs j = s.objs j := by
-          rcases hobj j with h' | h' | h'
-          · exact h'
-          · exact absurd h'.1 hji
-          · rw [h'.2.2.1] at hoidj; cases hoidj
-        refine ⟨⟨k2, by rw [hsame, hk2]⟩, ?_⟩
-        simp only [List.mem_cons] at hmem
-        simp only [List.mem_append, List.mem_reverse]
-        rcases hmem with hmem | hmem
-        · exact absurd hmem hji
-        · exact Or.inr hmem
-    · obtain ⟨k2, hk2, hcr, hca⟩ := h
-      right; right
-      refine ⟨k2, ?_, ?_, ?_⟩
-      · rcases hobj j with h' | h' | h'
-        · rw [h']; exact hk2
-        · rw [h'.2.1]; exact hk2
-        · rw [h'.2.2.1] at hk2; cases hk2
-      · rw [hcreating]; split
-        · rfl
-        · exact hcr
-      · rw [hcache]
-        by_cases hkk : k2 = k
-        · subst hkk
-          have := hstr.inj j i k2 hk2 hk
-          simp [this]
-        · simp [hkk, hca]
-  · -- addedSame
-    intro k' j hj
-    have hstr := hP.str
-    rw [hadded] at hj
-    split at hj
-    · cases hj
-    · rename_i hcond
-      rw [← hP.addedSame k' j hj]
-      have hoidj := (hstr.addedS k' j hj).1
-      rcases hobj j with h' | h' | h'
-      · exact h'
-      · exfalso
-        have hji := h'.1
-        subst hji
-        rw [hk] at hoidj; cases hoidj
-        exact hcond ⟨hisnew hj, rfl⟩
-      · rw [h'.2.2.1] at hoidj; cases hoidj
-
-
-  · -- statusKept
-    intro j
-    rcases hobj j with h | h | h
-    · rcases hP.statusKept j with h' | ⟨k', hk', hm⟩
-      · left; rw [h]; exact h'
-      · right; exact ⟨k', by rw [h]; exact hk', sp.marked_mono k' hm⟩
-    · right
-      refine ⟨k, ?_, sp.marked_self⟩
-      rw [h.2.1, h.1]; exact hk
-    · rcases hP.statusKept j with h' | ⟨k', hk', hm⟩
-      · left; rw [h.2.2.2.1]; exact h'
-      · rw [h.2.2.1] at hk'; cases hk'
-
-/-- a failed iteration of `_store_objects` that is *not* the defect situation D1: the object is not
-    new and nothing is pending -/
-theorem storeOne_fail_prog {s0 s : State} {i k : Nat}
-    (hP : Prog s0 [i] s) (hk : (s.objs i).oid = some k)
-    (hnn : isNewObj s (s.objs i) k = false) (hadd : s.added.get k = none)
-    (h0 : (s0.objs i).oid ≠ none) (hc : s.cache.get k = some i)
-    (hpush : (storeOne s i).2 = []) (hfail : (storeOne s i).1.2 ≠ none) :
-    Prog s0 [] (storeOne s i).1.1 := by
-  -- what the failed iteration did to the state
-  have key : let s' := (storeOne s i).1.1
-      (∀ j, j ≠ i → s'.objs j = s.objs j) ∧
-      (s'.objs i = s.objs i ∨ ((s.objs i).status = .ghost ∧ (s'.objs i).status = .uptodate ∧
-        (s'.objs i).oid = some k ∧ (s'.objs i).jar = (s.objs i).jar)) ∧
-      s'.cache = s.cache ∧ s'.added = s.added ∧ s'.creating = s.creating ∧
-      s'.d1 = s.d1 ∧ s.nextOid ≤ s'.nextOid ∧ ctx s' = ctx s ∧ s'.sp.isSome = s.sp.isSome ∧
-      tmpCr s' = tmpCr s ∧ s'.modified = s.modified ++ [k] := by
-    unfold storeOne at hpush hfail ⊢
-    simp only [hk] at hpush hfail ⊢
-    have hcl : classify s i k = { s with modified := s.modified ++ [k] } := by
-      unfold classify; simp [hnn]
-    have hobj1 := access_objs (classify s i k) i
-    have hbooks1 := access_books (classify s i k) i
-    have hstores1 := access_stores (classify s i k) i
-    have hctx1 := access_ctx (classify s i k) i
-    have hnext1 := access_nextOid (classify s i k) i
-    have htc1 := access_tmpCr (classify s i k) i
-    generalize access (classify s i k) i = a at *
-    obtain ⟨a1, a2⟩ := a
-    simp only [classify_objs, classify_nextOid, classify_tmpCr, classify_ctx] at hobj1 hnext1 htc1 hctx1
-    simp only [books, stores, Prod.mk.injEq, classify_cache, classify_sp, classify_staged, classify_d1]
-      at hbooks1 hstores1
-    have hadd1 : a1.added = s.added := by rw [hbooks1.1, hcl]
-    have hcr1 : a1.creating = s.creating := by rw [hbooks1.2.1, hcl]
-    have hmod1 : a1.modified = s.modified ++ [k] := by rw [hbooks1.2.2.1, hcl]
-    have hobjA : (∀ j, j ≠ i → a1.objs j = s.objs j) ∧
-        (a1.objs i = s.objs i ∨ ((s.objs i).status = .ghost ∧ (a1.objs i).status = .uptodate ∧
-          (a1.objs i).oid = some k ∧ (a1.objs i).jar = (s.objs i).jar)) := by
-      refine ⟨?_, ?_⟩
-      · intro j hj
-        rcases hobj1 j with h | h
-        · exact h
-        · exact absurd h.1 hj
-      · rcases hobj1 i with h | h
-        · exact Or.inl h
-        · right; rw [← hk]; exact h.2
-    cases a2 with
-    | some e =>
-      simp only
-      exact ⟨hobjA.1, hobjA.2, hstores1.1, hadd1, hcr1, hbooks1.2.2.2, by omega, hctx1,
-        by rw [hstores1.2.1], htc1, hmod1⟩
-    | none =>
-      simp only at hpush hfail ⊢
-      have ser := serialize_ok a1 (a1.objs i).refs
-      have hbooks2 := serialize_books a1 (a1.objs i).refs
-      have hstores2 := serialize_stores a1 (a1.objs i).refs
-      have hctx2 := serialize_ctx a1 (a1.objs i).refs
-      have htc2 := serialize_tmpCr a1 (a1.objs i).refs
-      generalize serialize a1 (a1.objs i).refs = sr at *
-      obtain ⟨s2, pushed⟩ := sr
-      simp only at hpush hfail ser hbooks2 hstores2 hctx2 htc2 ⊢
-      subst hpush
-      have hobj2 := ser.objs_of_nil rfl
-      simp only at hobj2
-      have hmono := ser.mono
-      simp only at hmono
-      simp only [books, stores, Prod.mk.injEq] at hbooks2 hstores2
-      have hf3 := storeRec_fail_objs s2 i k ⟨(a1.objs i).serial, (a1.objs i).val, (a1.objs i).refs⟩ hfail
-      have hbooks3 := storeRec_books s2 i k ⟨(a1.objs i).serial, (a1.objs i).val, (a1.objs i).refs⟩
-      have hctx3 := storeRec_ctx s2 i k ⟨(a1.objs i).serial, (a1.objs i).val, (a1.objs i).refs⟩
-      have hnext3 := storeRec_nextOid s2 i k ⟨(a1.objs i).serial, (a1.objs i).val, (a1.objs i).refs⟩
-      have hsp3 := storeRec_spSome s2 i k ⟨(a1.objs i).serial, (a1.objs i).val, (a1.objs i).refs⟩
-      have htc3 := storeRec_tmpCr s2 i k ⟨(a1.objs i).serial, (a1.objs i).val, (a1.objs i).refs⟩
-      generalize storeRec s2 i k ⟨(a1.objs i).serial, (a1.objs i).val, (a1.objs i).refs⟩ = r at *
-      obtain ⟨s3, e3⟩ := r
-      simp only [books, Prod.mk.injEq] at hf3 hbooks3 hctx3 hnext3 hsp3 htc3 ⊢
-      refine ⟨?_, ?_, by rw [hf3.2, hstores2.1, hstores1.1], by rw [hbooks3.1, hbooks2.1, hadd1],
-        by rw [hbooks3.2.1, hbooks2.2.1, hcr1],
-        by rw [hbooks3.2.2.2, hbooks2.2.2.2, hbooks1.2.2.2], by omega, by rw [hctx3, hctx2, hctx1],
-        by rw [hsp3, hstores2.2.1, hstores1.2.1], by rw [htc3, htc2, htc1],
-        by rw [hbooks3.2.2.1, hbooks2.2.2.1, hmod1]⟩
-      · intro j hj
-        rw [hf3.1, hobj2]; exact hobjA.1 j hj
-      · rw [hf3.1, hobj2]; exact hobjA.2
-  generalize (storeOne s i).1.1 = s' at key ⊢
-  obtain ⟨hoth, hi, hcache, hadded, hcreating, hd1, hnext, hctx, hsp, htc, hmod⟩ := key
-  have hmk : ∀ k', marked s k' → marked s' k' := by
-    intro k' h
-    unfold marked at h ⊢
-    rw [hmod, hcreating]
-    rcases h with h | h
-    · exact Or.inl (List.mem_append_left _ h)
-    · exact Or.inr h
-  have hoj : ∀ j, (s'.objs j).oid = (s.objs j).oid ∧ (s'.objs j).jar = (s.objs j).jar := by
-    intro j
-    by_cases hj : j = i
-    · subst hj
-      rcases hi with h | h
-      · rw [h]; exact ⟨rfl, rfl⟩
-      · exact ⟨by rw [h.2.2.1, hk], h.2.2.2⟩
-    · rw [hoth j hj]; exact ⟨rfl, rfl⟩
-  have hstr : Str [] s' := (hP.str.transfer hoj hcache hadded hnext).drop (by rw [(hoj i).1]; exact hk)
-    (Or.inl (by rw [hcache]; exact hc))
-  have hne0 : ∀ j, (s0.objs j).oid = none → j ≠ i := by
-    intro j hj he; subst he; exact h0 hj
-  constructor
-  · exact hP.base
-  · exact hstr
-  · rw [hctx]; exact hP.ctx
-  · rw [hsp]; exact hP.spSome
-  · have := hP.nextOid; omega
-  · rw [hd1]; exact hP.d1
-  · intro j k' hj; rw [(hoj j).1]; exact hP.oidKeep j k' hj
-  · intro j hg
-    by_cases hj : j = i
-    · subst hj
-      rcases hi with h | h
-      · rw [h]; exact hP.objVal j hg
-      · exact absurd (hP.noGhost j h.1) hg
-    · rw [hoth j hj]; exact hP.objVal j hg
-  · intro j hch
-    by_cases hj : j = i
-    · subst hj
-      rcases hi with h | h
-      · rw [h] at hch; exact hP.noChange j hch
-      · rw [h.2.1] at hch; cases hch
-    · rw [hoth j hj] at hch; exact hP.noChange j hch
-  · intro j hch
-    by_cases hj : j = i
-    · subst hj
-      rcases hi with h | h
-      · rw [h] at hch; exact hP.noGhost j hch
-      · rw [h.2.1] at hch; cases hch
-    · rw [hoth j hj] at hch; exact hP.noGhost j hch
-  · intro j k' hj0 hj
-    rw [(hoj j).1] at hj
-    obtain ⟨h1, h2⟩ := hP.newTracked j k' hj0 hj
-    refine ⟨h1, ?_⟩
-    rcases h2 with h2 | h2
-    · simp only [List.mem_singleton] at h2; exact absurd h2 (hne0 j hj0)
-    · right; rw [hcreating, hcache]; exact h2
-  · intro k' j hj; rw [hadded] at hj; exact hP.addedSub k' j hj
-  · intro k' j hj; rw [hadded, hcreating, hcache]; exact hP.addedTracked k' j hj
-  · intro k' j hj; rw [hcache]; exact hP.cacheGrow k' j hj
-  · intro k' hk'
-    rw [hcreating] at hk'
-    rcases hP.creatingNew k' hk' with h | ⟨j, hj, h⟩
-    · exact Or.inl h
-    · exact Or.inr ⟨j, by rw [(hoj j).1]; exact hj, h⟩
-  · rw [htc]; exact hP.tmpCr
-  · intro j hj0
-    rw [hoth j (hne0 j hj0)]
-    rcases hP.fresh0 j hj0 with h | h | h
-    · exact Or.inl h
-    · simp only [List.mem_singleton] at h; exact absurd h.2 (hne0 j hj0)
-    · right; right
-      obtain ⟨k2, h1, h2, h3⟩ := h
-      exact ⟨k2, h1, by rw [hcreating]; exact h2, by rw [hcache]; exact h3⟩
-  · intro k' j hj
-    rw [hadded] at hj
-    have hji : j ≠ i := by
-      intro he; subst he
-      have := (hP.str.addedS k' j hj).1
-      rw [hk] at this; cases this
-      rw [hadd] at hj; cases hj
-    rw [hoth j hji]; exact hP.addedSame k' j hj
-
-
-  · intro j
-    by_cases hj : j = i
-    · subst hj
-      rcases hi with h | h
-      · rcases hP.statusKept j with h' | ⟨k', hk', hm⟩
-        · left; rw [h]; exact h'
-        · right; exact ⟨k', by rw [h]; exact hk', hmk k' hm⟩
-      · right
-        refine ⟨k, h.2.2.1, ?_⟩
-        unfold marked; rw [hmod]; left; simp
-    · rcases hP.statusKept j with h' | ⟨k', hk', hm⟩
-      · left; rw [hoth j hj]; exact h'
-      · right; exact ⟨k', by rw [hoth j hj]; exact hk', hmk k' hm⟩
-
-/-! ### the whole loop of `_store_objects` -/
-
-/-- what `_commit` needs to know about the state it starts in, in order to classify objects -/
-structure NewOK (s0 : State) : Prop where
-  serial0 : ∀ j, (s0.objs j).oid = none → (s0.objs j).serial = 0
-  tmpFresh : ∀ cr, tmpCr s0 = some cr → ∀ k, cr.get k ≠ none → k < s0.nextOid
-
-theorem isNewObj_true {s : State} {o : Obj} {k : Nat} (h1 : o.serial = 0)
-    (h2 : ∀ cr, tmpCr s = some cr → cr.get k = none) : isNewObj s o k = true := by
-  unfold isNewObj
-  simp only [h1, beq_self_eq_true, Bool.true_and]
-  unfold tmpCr at h2
-  cases hs : s.sp with
-  | none => rfl
-  | some t =>
-    simp only [hs, Option.map_some, Option.some.injEq, forall_eq'] at h2
-    simp [h2]
-
-/-- requirements on an object waiting on the writer's stack -/
-def StackOK (s0 s : State) (j : ObjId) : Prop :=
-  ∃ k, (s.objs j).oid = some k ∧
-    (s.added.get k ≠ none → isNewObj s (s.objs j) k = true) ∧
-    (s.cache.get k = some j ∨ s.added.get k = some j ∨ (s0.objs j).oid = none) ∧
-    ((s0.objs j).oid = none → isNewObj s (s.objs j) k = true)
-
-/-- an extra invariant carried through the successful iterations -/
-def StepInv (J : State → Prop) : Prop :=
-  ∀ s i k rest s3 pushed, J s → Str (i :: rest) s → (s.objs i).oid = some k →
-    StoreSpec s i k rest s3 pushed → J s3
-
-theorem storeObjects_prog {s0 : State} (hN : NewOK s0) {J : State → Prop} (hJ : StepInv J) :
-    ∀ (fuel : Nat) (s : State) (stack : List ObjId), Prog s0 stack s → J s → stack.Nodup →
-      (∀ j ∈ stack, StackOK s0 s j) →
-      ((storeObjects fuel s stack).2 = none →
-        Prog s0 [] (storeObjects fuel s stack).1 ∧ J (storeObjects fuel s stack).1 ∧
-        (∀ k, marked s k → marked (storeObjects fuel s stack).1 k) ∧
-        (∀ j ∈ stack, ∀ k, (s.objs j).oid = some k → marked (storeObjects fuel s stack).1 k)) ∧
-      ((storeObjects fuel s stack).2 ≠ none → (storeObjects fuel s stack).1.d1 = false →
-        Prog s0 [] (storeObjects fuel s stack).1) := by
-  intro fuel
-  induction fuel with
-  | zero =>
-    intro s stack hP hj _ _
-    cases stack with
-    | nil => exact ⟨fun _ => ⟨hP, hj, fun _ h => h, by simp⟩, fun h => absurd rfl h⟩
-    | cons i rest =>
-      refine ⟨fun h => by simp [storeObjects] at h, fun _ h => ?_⟩
-      simp [storeObjects] at h
-  | succ n ih =>
-    intro s stack hP hj hnd hst
-    cases stack with
-    | nil => exact ⟨fun _ => ⟨hP, hj, fun _ h => h, by simp⟩, fun h => absurd rfl h⟩
-    | cons i rest =>
-      obtain ⟨k, hk, hnew, hknown, hnew0⟩ := hst i List.mem_cons_self
-      simp only [storeObjects, hk]
-      cases hres : (storeOne s i).1.2 with
-      | none =>
-        simp only
-        have sp := storeOne_spec hP.str hk hnew hres
-        have step := storeOne_prog hP hk hnew hknown hnew0 sp
-        have hj3 := hJ s i k rest _ _ hj hP.str hk sp
-        have hnd' : ((storeOne s i).2.reverse ++ rest).Nodup := by
-          rw [List.nodup_append]
-          refine ⟨nodup_reverse sp.nodup, (List.nodup_cons.1 hnd).2, ?_⟩
-          intro a ha b hb hab
-          subst hab
-          have := (sp.pushedNew a (List.mem_reverse.1 ha)).2.1
-          obtain ⟨ka, hka, _⟩ := hst a (List.mem_cons_of_mem _ hb)
-          rw [this] at hka; cases hka
-        have hst' : ∀ j ∈ (storeOne s i).2.reverse ++ rest, StackOK s0 (storeOne s i).1.1 j := by
-          intro j hjm
-          rcases List.mem_append.1 hjm with hjp | hjr
-          · obtain ⟨_, h0n, k', hobj, hge⟩ := step.pushedFresh j (List.mem_reverse.1 hjp)
-            have hisn : isNewObj (storeOne s i).1.1 ((storeOne s i).1.1.objs j) k' = true := by
-              apply isNewObj_true
-              · rw [hobj]; exact hN.serial0 j h0n
-              · intro cr hcr
-                rw [step.prog.tmpCr] at hcr
-                cases hg : cr.get k' with
-                | none => rfl
-                | some b => have := hN.tmpFresh cr hcr k' (by rw [hg]; simp); omega
-            exact ⟨k', by rw [hobj], fun _ => hisn, Or.inr (Or.inr h0n), fun _ => hisn⟩
-          · obtain ⟨kj, hkj, hnewj, hknownj, hnew0j⟩ := hst j (List.mem_cons_of_mem _ hjr)
-            have hji : j ≠ i := by
-              intro he; rw [he] at hjr; exact (List.nodup_cons.1 hnd).1 hjr
-            have hsame : (storeOne s i).1.1.objs j = s.objs j := by
-              rcases sp.obj j with h | h | h
-              · exact h
-              · exact absurd h.1 hji
-              · rw [h.2.2.1] at hkj; cases hkj
-            have hkne : kj ≠ k := by
-              intro he; subst he; exact hji (hP.str.inj j i kj hkj hk)
-            have hisn : isNewObj (storeOne s i).1.1 ((storeOne s i).1.1.objs j) kj =
-                isNewObj s (s.objs j) kj := isNewObj_congr kj sp.tmpCr (by rw [hsame])
-            refine ⟨kj, by rw [hsame]; exact hkj, ?_, ?_, ?_⟩
-            · intro ha
-              rw [hisn]; apply hnewj
-              rw [sp.added] at ha
-              simpa [hkne] using ha
-            · rcases hknownj with h | h | h
-              · left; rw [sp.cache]; simp [hkne, h]
-              · right; left; rw [sp.added]; simp [hkne, h]
-              · exact Or.inr (Or.inr h)
-            · intro h; rw [hisn]; exact hnew0j h
-        obtain ⟨ih1, ih2⟩ := ih (storeOne s i).1.1 _ step.prog hj3 hnd' hst'
-        refine ⟨fun h => ?_, ih2⟩
-        obtain ⟨h1, h2, h3, h4⟩ := ih1 h
-        refine ⟨h1, h2, fun k' hk' => h3 k' (sp.marked_mono k' hk'), ?_⟩
-        intro j hjm kj hkj
-        rcases List.mem_cons.1 hjm with hje | hjr
-        · subst hje
-          rw [hk] at hkj; cases hkj
-          exact h3 _ sp.marked_self
-        · have hji : j ≠ i := by
-            intro he; rw [he] at hjr; exact (List.nodup_cons.1 hnd).1 hjr
-          have hsame : (storeOne s i).1.1.objs j = s.objs j := by
-            rcases sp.obj j with h | h | h
-            · exact h
-            · exact absurd h.1 hji
-            · rw [h.2.2.1] at hkj; cases hkj
-          exact h4 j (List.mem_append_right _ hjr) kj (by rw [hsame]; exact hkj)
-      | some e =>
-        simp only
-        refine ⟨fun h => by simp at h, fun _ hd => ?_⟩
-        simp only [Bool.or_eq_false_iff, Bool.not_eq_false', List.isEmpty_iff,
-          List.append_eq_nil_iff] at hd
-        obtain ⟨⟨hd1, hnn⟩, hpush, hrest⟩ := hd
-        subst hrest
-        have h0 : (s0.objs i).oid ≠ none := by
-          intro h; rw [hnew0 h] at hnn; cases hnn
-        have hadd : s.added.get k = none := by
-          cases ha : s.added.get k with
-          | none => rfl
-          | some j => rw [hnew (by rw [ha]; simp)] at hnn; cases hnn
-        have hc : s.cache.get k = some i := by
-          rcases hknown with h | h | h
-          · exact h
-          · rw [hadd] at h; cases h
-          · exact absurd h h0
-        have hfp := storeOne_fail_prog hP hk hnn hadd h0 hc hpush (by rw [hres]; simp)
-        have hst : ∀ x : State, x.d1 = false → ({ x with d1 := false } : State) = x := by
-          intro x h; cases x; simp_all
-        have : ({ (storeOne s i).1.1 with d1 := ((storeOne s i).1.1.d1 || isNewObj s (s.objs i) k ||
-            !((storeOne s i).2 ++ []).isEmpty) } : State) = (storeOne s i).1.1 := by
-          simp only [hd1, hnn, hpush, List.append_nil, List.isEmpty_nil, Bool.not_true, Bool.or_self]
-          exact hst _ hd1
-        rw [this]
-        exact hfp
-
-
-/-! ### the loop of `_commit` over the registered objects -/
-
-theorem commitLoop_prog {s0 : State} (hN : NewOK s0)
-    (hA : ∀ k j, s0.added.get k = some j → isNewObj s0 (s0.objs j) k = true)
-    {J : State → Prop} (hJ : StepInv J) (fuel : Nat) :
-    ∀ (regs : List ObjId) (s : State), Prog s0 [] s → J s → (∀ i ∈ regs, (s0.objs i).oid ≠ none) →
-      ((commitLoop fuel s regs).2 = none →
-        Prog s0 [] (commitLoop fuel s regs).1 ∧ J (commitLoop fuel s regs).1 ∧
-        (∀ k, marked s k → marked (commitLoop fuel s regs).1 k) ∧
-        (∀ i ∈ regs, ∀ k, (s0.objs i).oid = some k →
-          (s0.added.get k = some i ∨ (s0.objs i).status = .changed) →
-          marked (commitLoop fuel s regs).1 k)) ∧
-      ((commitLoop fuel s regs).2 ≠ none → (commitLoop fuel s regs).1.d1 = false →
-        Prog s0 [] (commitLoop fuel s regs).1) := by
-  intro regs
-  induction regs with
-  | nil =>
-    intro s hP hj _
-    exact ⟨fun _ => ⟨hP, hj, fun _ h => h, by simp⟩, fun h => absurd rfl h⟩
-  | cons i rest ih =>
-    intro s hP hj hreg
-    obtain ⟨k, hk0⟩ := Option.ne_none_iff_exists'.1 (hreg i List.mem_cons_self)
-    have hk := hP.oidKeep i k hk0
-    have hrest : ∀ j ∈ rest, (s0.objs j).oid ≠ none := fun j hj => hreg j (List.mem_cons_of_mem _ hj)
-    simp only [commitLoop, hk]
-    -- the registered object, as an element of the writer's stack
-    have hst : ∀ j ∈ [i], StackOK s0 s j := by
-      intro j hj
-      simp only [List.mem_singleton] at hj
-      subst hj
-      refine ⟨k, hk, ?_, ?_, fun h => by rw [hk0] at h; cases h⟩
-      · intro ha
-        obtain ⟨j', hj'⟩ := Option.ne_none_iff_exists'.1 ha
-        have hjj : j' = j := hP.str.inj j' j k (hP.str.addedS k j' hj').1 hk
-        subst hjj
-        have h0 := hP.addedSub k j' hj'
-        have hobj := hP.addedSame k j' hj'
-        rw [isNewObj_congr k hP.tmpCr (by rw [hobj])]
-        exact hA k j' h0
-      · have := hP.str.known j k hk
-        simp only [List.not_mem_nil, or_false] at this
-        rcases this with h | h
-        · exact Or.inl h
-        · exact Or.inr (Or.inl h)
-    split
-    · -- the object is stored
-      have hso := storeObjects_prog hN hJ fuel s [i] (hP.mono (by simp)) hj (by simp) hst
-      cases hres : (storeObjects fuel s [i]).2 with
-      | none =>
-        simp only
-        obtain ⟨h1, h2, h3, h4⟩ := hso.1 hres
-        obtain ⟨ih1, ih2⟩ := ih (storeObjects fuel s [i]).1 h1 h2 hrest
-        refine ⟨fun h => ?_, ih2⟩
-        obtain ⟨g1, g2, g3, g4⟩ := ih1 h
-        refine ⟨g1, g2, fun k' hk' => g3 k' (h3 k' hk'), ?_⟩
-        intro j hjm kj hkj hch
-        rcases List.mem_cons.1 hjm with hje | hjr
-        · subst hje
-          rw [hk0] at hkj; cases hkj
-          exact g3 _ (h4 j (by simp) _ hk)
-        · exact g4 j hjr kj hkj hch
-      | some e =>
-        simp only
-        exact ⟨fun h => by simp at h, fun _ hd => hso.2 (by rw [hres]; simp) hd⟩
-    · -- nothing to do for this object
-      rename_i hcond
-      obtain ⟨ih1, ih2⟩ := ih s hP hj hrest
-      refine ⟨fun h => ?_, ih2⟩
-      obtain ⟨g1, g2, g3, g4⟩ := ih1 h
-      refine ⟨g1, g2, g3, ?_⟩
-      intro j hjm kj hkj hch
-      rcases List.mem_cons.1 hjm with hje | hjr
-      · subst hje
-        rw [hk0] at hkj; cases hkj
-        apply g3
-        simp only [Bool.or_eq_true, Bool.not_eq_true', Bool.or_eq_false_iff, not_or,
-          Bool.not_eq_true, bne_eq_false_iff_eq, not_and] at hcond
-        obtain ⟨hnadd, hcr⟩ := hcond
-        rcases hch with hch | hch
-        · rcases hP.addedTracked k j hch with h | h
-          · rw [Map.has_eq_false] at hnadd; rw [hnadd] at h; cases h
-          · exact Or.inr h.1
-        · rcases hP.statusKept j with h | ⟨k', hk', hm⟩
-          · by_cases hc : s.creating.has k = true
-            · exact Or.inr hc
-            · exfalso
-              have := hcr (by simpa using hc)
-              rw [h, hch] at this
-              simp at this
-          · rw [hk] at hk'; cases hk'; exact hm
-      · exact g4 j hjr kj hkj hch
 
 end Proofs.Conn
